@@ -663,7 +663,7 @@ def regenerate_and_prove(ctx):
     names = ['C14_gen_kleene_and', 'C14_gen_kleene_or', 'C14_gen_model_and', 'C14_gen_model_or',
              'C14_gen_or2', 'C14_gen_and2']
     try:
-        path = la.generate(os.path.join(gen, 'Gen_logic_%d.v' % os.getpid()))
+        path = la.generate(os.path.join(gen, 'Gen_logic_%d.v' % os.getpid()))[0]
     except la.Untranslatable as e:
         for n in names:
             ctx.obligations.append((n, False, 'regeneration failed'))
